@@ -12,6 +12,10 @@ Deciding method
     must equal the single-threaded result (oracle), the observed class of the shared table must be
     one the model allows, and the model — run through the driver from the abstraction of the observed
     state — must predict the observed outcome (tie).
+  * sweeps (oracle only; `run_sweep`): three parties — a late builder that found the table empty and is advanced one line at
+    a time, a thread that completed a first-use lookup and published meanwhile, and readers that are pre-empted 1..k lines
+    into their OWN lookup while the late builder executes one line (every position of the builder x every depth, both
+    tables).  A wrong lookup is re-run as a plain three-thread segment schedule, which is what the replay file holds.
 
   * source tie: `translate/src_lookup.py` emits the ordered statement events of the reader/builder functions on
     the two dictionaries; `DS.Props.SrcLookup` decides from them (in Lean) that both are the `publish` protocol with
@@ -34,6 +38,13 @@ if __name__ != "__main__":
 TRACED_FUNCS = ("GetSpaceGroup", "FindSpaceGroup", "IsSpaceGroupIdentifier", "_buildSGLookupTable",
                 "_getSGHashLookupTable")
 TABLE_ATTR = {"id": "_sg_lookup_table", "hash": "_sg_hash_lookup_table"}
+
+
+def _calls_of(s):
+    """every call a schedule makes (segment schedules: one per thread; sweeps: late builder, first publisher, readers)"""
+    if s.get("kind") == "sweep":
+        return [s["builder"]] + ([s["first"]] if s.get("first") else []) + list(s["readers"])
+    return list(s["threads"])
 
 
 # ======================================================================================
@@ -94,6 +105,9 @@ def _worker(job):
         if kind == "FindShuffle":
             ops = ops_of(c[1], c[2])
             return lambda: sgs.FindSpaceGroup(ops, shuffle=True)
+        if kind == "FindDup":      # every operation twice: not the operation list of any setting (invalid input)
+            ops = ops_of(c[1], "same") * 2
+            return lambda: sgs.FindSpaceGroup(ops)
         raise ValueError(c)
 
     def canon(v):
@@ -145,7 +159,7 @@ def _worker(job):
     keyorder = {k: {key: i for i, key in enumerate(t)} for k, t in full.items()}
     calls = {}
     for s in job["schedules"]:
-        for c in s["threads"]:
+        for c in _calls_of(s):
             calls[json.dumps(c)] = c
     seq_first = {}   # first use in a fresh single-threaded process state
     seq_warm = {}
@@ -173,6 +187,8 @@ def _worker(job):
             return "id", cands
         if c[0] == "FindIdx":
             return "hash", [sgs._hashSymOpList(SGL[c[1]].symop_list)]
+        if c[0] == "FindDup":
+            return "hash", [sgs._hashSymOpList(ops_of(c[1], "same") * 2)]
         return "hash", [sgs._hashSymOpList(ops_of(c[1], c[2]))]
 
     def observe(threads_calls):
@@ -244,6 +260,34 @@ def _worker(job):
                 self.finished = True
                 self.ctl.release()
 
+    class PT(T):
+        """a thread that makes one call after the other on request (sweeps: thousands of short reader lookups; starting a
+        thread per lookup costs more than the lookup).  Same parking protocol as T; a call begins with begin()."""
+
+        def __init__(self):
+            super().__init__(None, True)
+            self.job = threading.Semaphore(0)
+            self.retire = False
+            self.started = True
+            self.start()
+
+        def begin(self, fn, allowed, free=False):
+            self.fn, self.allowed, self.free = fn, allowed, free
+            self.nev, self.finished, self.where, self.result = 0, False, None, None
+            self.job.release()
+
+        def run(self):
+            sys.settrace(self._global)
+            while True:
+                self.job.acquire()
+                if self.fn is None:
+                    break
+                self.result = run_call(self.fn)
+                self.finished = True
+                self.ctl.release()
+                if self.retire:
+                    break
+
     def wait(t, timeout):
         """wait until thread t parks or finishes; False (and t.blocked) when it does neither within `timeout`:
         it is then waiting for something a paused thread holds (a lock), which is legitimate"""
@@ -301,9 +345,151 @@ def _worker(job):
         return {"results": [t.result for t in ths], "obs": obs, "where": where, "nev": [t.nev for t in ths],
                 "blocked": [bool(w and w[0] == "blocked") for w in where]}
 
+    def run_sweep(s):
+        """Reader pre-empted in the middle of its own lookup while a LATE builder makes its steps.
+
+        One traced builder B (it found the table empty) is parked after `head` lines; an untraced thread then makes a
+        complete first-use lookup (`first`: it builds and publishes).  From then on B is advanced one line at a time;
+        at every position listed in `points` a batch of traced reader threads each begin a lookup and are parked after
+        d lines (d in `depths`; the call of depth d at position p is readers[(p + 3 d) mod len]), B executes exactly one
+        line, the readers are resumed deepest first and every result is compared with the single-threaded reference.
+        The scenario needs a published table when the readers start: when B's line emptied it and no reader has
+        republished, one more untraced complete lookup does (counted in `republish`).  A thread that neither parks nor
+        finishes is waiting for something a paused thread holds (legitimate): it is left alone, no batch is started until
+        it has finished, and after three such episodes the sweep only lets everything finish.
+        With `profile` (no `first`, no points) B runs alone and the positions at which one line of B changed the size
+        of the shared table are recorded (the builder's own publication step; kept in the evidence)."""
+        reset()
+        tag = s["table"]
+        head, depths, rcalls = s["head"], s["depths"], s["readers"]
+        points = sorted(set(p for p in s["points"] if p >= head))
+        first = s.get("first")
+        profile = bool(s.get("profile"))
+        st = {"lookups": 0, "parked": 0, "nfail": 0, "republish": 0, "episodes": 0, "nmut": 0, "batches": 0}
+        fails, sites, mut, pending = [], {}, [], []
+
+        def verdict(c, res, label, bwhere=None, rwhere=None):
+            cj = json.dumps(c)
+            if res != seq_warm[cj] or res != seq_first[cj]:
+                st["nfail"] += 1
+                if len(fails) < 40:
+                    fails.append({"call": c, "result": res, "expected": seq_warm[cj], "at": label,
+                                  "builder_next_line": bwhere, "reader_parked_at": rwhere})
+
+        pool = []
+
+        def thread_for(c, allowed, free=False):
+            t = pool.pop() if pool else PT()
+            t.begin(make_call(c), allowed, free)
+            return t
+
+        def whole(c, label):
+            t = thread_for(c, 0, free=True)
+            if wait(t, BLOCK_TIMEOUT):
+                pool.append(t)
+                verdict(c, t.result, label, B.where)
+                return True
+            t.retire = True
+            pending.append((t, c, label))
+            st["episodes"] += 1
+            return False
+
+        def poll(block=False):
+            for ent in list(pending):
+                t, c, label = ent
+                if block:
+                    t0_ = _time.time()
+                    while not t.finished and _time.time() - t0_ < 300:
+                        _time.sleep(0.01)
+                    if not t.finished:
+                        raise RuntimeError("thread did not finish after all threads were released (deadlock in the code under test?)")
+                if t.finished:
+                    pending.remove(ent)
+                    verdict(c, t.result, label)
+
+        B = T(make_call(s["builder"]), True)
+        B.started = True
+        B.start()
+        wait(B, BLOCK_TIMEOUT)           # parked before its first line: position 0 = no line executed yet
+        pos = 0
+        stops = sorted(set(points) | ({head} if first else set()))
+        while not B.finished:
+            poll()
+            batch = []
+            bwhere = B.where
+            if first and pos == head:
+                whole(first, ["first", pos])
+            if pos in points and not pending and st["episodes"] < 3:
+                if len(tables()[tag]) == 0:
+                    st["republish"] += 1
+                    whole(first or rcalls[0], ["republish", pos])
+                if not pending:
+                    st["batches"] += 1
+                    for d in depths:
+                        c = rcalls[(pos + 3 * d) % len(rcalls)]
+                        R = thread_for(c, d)
+                        st["lookups"] += 1
+                        label = ["reader", pos, d]
+                        if not wait(R, BLOCK_TIMEOUT):
+                            R.retire = R.free = True
+                            R.go.release()       # should it park after all: it runs on
+                            pending.append((R, c, label))
+                            st["episodes"] += 1
+                            break
+                        if R.finished:       # the whole lookup has fewer than d+1 line events
+                            pool.append(R)
+                            verdict(c, R.result, label, bwhere, None)
+                        else:
+                            st["parked"] += 1
+                            k_ = "%s:%d" % tuple(R.where)
+                            sites[k_] = sites.get(k_, 0) + 1
+                            batch.append((R, c, label, list(R.where)))
+            # B executes one line (profile / batch) or runs to the next position of interest
+            if profile or batch:
+                n = 1
+            else:
+                nxt = [p for p in stops if p > pos]
+                n = (nxt[0] - pos) if nxt and not (st["episodes"] >= 3) else 10 ** 9
+            n0 = len(tables()[tag])
+            B.allowed += n
+            B.go.release()
+            b_ok = wait(B, BLOCK_TIMEOUT)
+            n1 = len(tables()[tag])
+            if n == 1 and n1 != n0:      # this line of B changed the size of the shared table (publication, or a wipe)
+                st["nmut"] += 1
+                if len(mut) < 400:
+                    mut.append([pos, n0, n1])
+            for R, c, label, rwhere in reversed(batch):
+                R.free = True
+                R.go.release()
+                if wait(R, BLOCK_TIMEOUT):
+                    pool.append(R)
+                    verdict(c, R.result, label, bwhere, rwhere)
+                else:
+                    R.retire = True
+                    pending.append((R, c, label))
+                    st["episodes"] += 1
+            if not b_ok:
+                # B itself waits for something a parked thread held; everything else has been released by now
+                st["episodes"] += 1
+                if not wait(B, 300):
+                    raise RuntimeError("late builder did not move after all other threads were released (deadlock in the code under test?)")
+            pos += n
+        B.join()
+        poll(block=True)
+        verdict(s["builder"], B.result, ["builder"])
+        for t in pool:
+            t.fn = None
+            t.job.release()
+        for c in rcalls if not profile else []:       # and once more when everything is quiet
+            verdict(c, run_call(make_call(c)), ["afterwards"])
+        st.update({"kind": "sweep", "nev": [B.nev], "fails": fails, "sites": sites, "mut": mut,
+                   "final": {k: len(t) for k, t in tables().items()}})
+        return st
+
     out = []
     for s in job["schedules"]:
-        out.append(run_schedule(s))
+        out.append(run_sweep(s) if s.get("kind") == "sweep" else run_schedule(s))
     return {"seq_first": seq_first, "seq_warm": seq_warm, "K": {k: len(v) for k, v in full.items()},
             "keypos": {cj: [keyorder[probe_key(c)[0]].get(x, -1) for x in probe_key(c)[1]] for cj, c in calls.items()},
             "runs": out}
@@ -319,13 +505,14 @@ if __name__ == "__main__":
 # harness side
 # ======================================================================================
 
-def run_jobs(schedules, nproc=12, chunk=None):
-    """Distribute schedules over fresh worker processes; returns (meta, runs in order)."""
+def run_jobs(schedules, nproc=12):
+    """Distribute schedules over fresh worker processes (round robin: the expensive schedules of one family are
+    neighbours in the list); returns (meta, runs in the order of `schedules`)."""
     src = os.path.join(common.REPO, "src")
     if not schedules:
         return None, []
-    chunk = chunk or max(1, (len(schedules) + nproc - 1) // nproc)
-    parts = [schedules[i:i + chunk] for i in range(0, len(schedules), chunk)]
+    nparts = max(1, min(nproc, len(schedules)))
+    parts = [schedules[i::nparts] for i in range(nparts)]
 
     def one(part):
         p = subprocess.run([common.PY, "-m", "harness.c19"], cwd=VERIF, input=json.dumps({"src": src, "schedules": part}),
@@ -334,9 +521,12 @@ def run_jobs(schedules, nproc=12, chunk=None):
             raise common.Broken("C19 worker failed: " + p.stderr[-1500:])
         return json.loads(p.stdout)
 
-    with ThreadPoolExecutor(max_workers=nproc) as ex:
+    with ThreadPoolExecutor(max_workers=nparts) as ex:
         res = list(ex.map(one, parts))
-    runs = [r for x in res for r in x["runs"]]
+    runs = [None] * len(schedules)
+    for i, x in enumerate(res):
+        for j, r in enumerate(x["runs"]):
+            runs[i + j * nparts] = r
     meta = {"seq_first": {}, "seq_warm": {}, "keypos": {}, "K": res[0]["K"]}
     for x in res:
         meta["seq_first"].update(x["seq_first"])
@@ -434,8 +624,24 @@ def run(ck):
 
     schedules, tags = [], []
     npts = {}
-    for b in id_builders + hash_builders:
-        npts[json.dumps(b)], _ = count_points(b)
+    # late builders of the sweeps (short calls: few line events after the publication) and the lookups that are pre-empted
+    # d lines into themselves while the late builder makes one step; invalid input included (same exception kind expected)
+    sweep_readers = {
+        "id": [["Get", "Fm-3m"], ["Get", 225], ["Get", "Ia3d"], ["Is", " p 21/c "], ["Get", "p 1 21/c 1"], ["Get", "no such group"],
+               ["Is", "P 1 21/c 1"]],       # first / second / third candidate spelling, alias, integer, unknown identifier
+        "hash": [["Find", 1, "same"], ["Find", 14, "reversed"], ["FindShuffle", 62, "reversed"], ["FindIdx", -1], ["FindDup", 1],
+                 ["Find", 4, "same"], ["FindShuffle", 2, "rotated"]]}
+    sweep_first = {"id": ["Get", "Fm-3m"], "hash": ["Find", 62, "same"]}
+    sweep_builders = {"id": [["Get", 225]] if quick else [["Get", 225], ["Is", " p 21/c "]],
+                      "hash": [["Find", 1, "same"]] if quick else [["Find", 1, "same"], ["Find", 62, "reversed"]]}
+    pre = [{"threads": [b], "traced": [1], "segs": [[0, 10 ** 9]]} for b in id_builders + hash_builders]
+    pre_sw = [(t, b) for t in ("id", "hash") for b in sweep_builders[t]]
+    pre += [{"kind": "sweep", "table": t, "builder": b, "first": None, "head": 0, "depths": [], "readers": [], "points": [],
+             "profile": 1} for t, b in pre_sw]
+    _, pre_runs = run_jobs(pre, nproc=len(pre))
+    for b, r in zip(id_builders + hash_builders, pre_runs):
+        npts[json.dumps(b)] = r["nev"][0]
+    profile = {json.dumps(b): r for (t, b), r in zip(pre_sw, pre_runs[len(id_builders + hash_builders):])}
     # builder x reader, every pre-emption point of the builder
     for b in id_builders + hash_builders:
         N = npts[json.dumps(b)]
@@ -492,8 +698,43 @@ def run(ck):
             schedules.append({"threads": [a, b, c], "traced": [1, 1, 1], "segs": segs})
             tags.append(("triple", a, b, tuple(map(tuple, segs))))
 
+    # sweeps: a reader pre-empted in the middle of its own lookup while a late builder makes one step (see run_sweep).
+    # Positions = number of lines the late builder has executed; `main` sweeps: the builder is parked `head` lines in
+    # (inside its build) when the first publisher runs; `early` sweeps: it is parked right after the emptiness test
+    # (heads 1..4), so that whatever it does to the shared table on entering the build happens under the readers.
+    depths = list(range(1, 15)) if quick else list(range(1, 21))
+    early_heads = (1, 2, 3, 4) if quick else (1, 2, 3, 4, 5, 6)
+    sweep_cov = {}
+    HEAD = 8
+    for t in ("id", "hash"):
+        for b in sweep_builders[t]:
+            pr = profile[json.dumps(b)]
+            N = pr["nev"][0]
+            pts = list(range(HEAD, N))        # every position of the late builder from `head` to its last line
+            per = 150
+            nsch = 0
+            for i in range(0, len(pts), per):
+                schedules.append({"kind": "sweep", "table": t, "builder": b, "first": sweep_first[t], "head": HEAD,
+                                  "depths": depths, "readers": sweep_readers[t], "points": pts[i:i + per]})
+                tags.append(("sweep", b, None, ("main", HEAD, pts[i], pts[min(i + per, len(pts)) - 1])))
+                nsch += 1
+            for h in early_heads:
+                schedules.append({"kind": "sweep", "table": t, "builder": b, "first": sweep_first[t], "head": h,
+                                  "depths": depths, "readers": sweep_readers[t], "points": list(range(h, min(N, h + 16)))})
+                tags.append(("sweep", b, None, ("early", h, h, h + 15)))
+                nsch += 1
+            sweep_cov[json.dumps(b)] = {"table": t, "late_builder": b, "first_publisher": sweep_first[t], "line_events_of_builder": N,
+                                        "builder_alone_changes_table_at": pr["mut"][:6], "positions_main": [HEAD, N - 1, len(pts)],
+                                        "early_heads": list(early_heads), "positions_early": len(early_heads) * 16, "schedules": nsch,
+                                        "reader_depths": [depths[0], depths[-1]], "reader_calls": sweep_readers[t]}
+
     t0 = time.time()
     meta, runs = run_jobs(schedules, nproc=14)
+    # the sweeps have their own verdict (below); the segment schedules go on as before
+    sweeps = [(s_, tg, r) for s_, tg, r in zip(schedules, tags, runs) if tg[0] == "sweep"]
+    keep = [i for i, tg in enumerate(tags) if tg[0] != "sweep"]
+    schedules, tags, runs = [schedules[i] for i in keep], [tags[i] for i in keep], [runs[i] for i in keep]
+    nsched_all = len(schedules) + len(sweeps)
     # directed second round: wherever a partially filled table was observed, look up a key that was absent
     extra, seen = [], set()
     for s_, tg, r in zip(schedules, tags, runs):
@@ -515,8 +756,8 @@ def run(ck):
         schedules += [e[0] for e in extra]
         tags += [e[1] for e in extra]
         runs += r2
-    ck.notes.append("%d schedules on the real code in %.1fs; pre-emption points per builder: %r; K=%r" % (
-        len(schedules), time.time() - t0, npts, meta["K"]))
+    ck.notes.append("%d schedules on the real code in %.1fs (%d of them sweeps); pre-emption points per builder: %r; K=%r" % (
+        nsched_all + len(extra), time.time() - t0, len(sweeps), npts, meta["K"]))
 
     # verdict per run -----------------------------------------------------------------
     lines, line_idx = [], {}
@@ -591,6 +832,85 @@ def run(ck):
         ck.fail(key, what, {"kind": "schedule", "schedule": schedules[i], "observed": runs[i], "expected": seq,
                             "where": runs[i]["where"], "failing_points": [tags[j][3] for j, _ in lst[:50]],
                             "theorem": "DS.Props.C19.id_table_linearizable / hash_table_linearizable"})
+    # sweeps: every lookup begun before / finished after one step of the late builder ---------------------------------
+    sw_tot = {"schedules": len(sweeps), "lookups": 0, "readers_parked_mid_lookup": 0, "failing_lookups": 0, "republish": 0,
+              "steps_of_late_builder_that_changed_table": 0, "waiting_episodes": 0}
+    sw_fail = {}      # key -> [count, first failure, its sweep]
+    for s_, tg, r in sweeps:
+        ck.coverage["evaluations"] += r["lookups"]
+        c_ = sweep_cov[json.dumps(s_["builder"])]
+        c_["lookups"] = c_.get("lookups", 0) + r["lookups"]
+        c_["readers_parked_mid_lookup"] = c_.get("readers_parked_mid_lookup", 0) + r["parked"]
+        st_ = c_.setdefault("reader_park_sites", {})
+        for k_, n_ in r["sites"].items():
+            st_[k_] = st_.get(k_, 0) + n_
+            nontrivial.add(("sweep", json.dumps(s_["builder"]), k_))
+        sw_tot["lookups"] += r["lookups"]
+        sw_tot["readers_parked_mid_lookup"] += r["parked"]
+        sw_tot["failing_lookups"] += r["nfail"]
+        sw_tot["republish"] += r["republish"]
+        sw_tot["steps_of_late_builder_that_changed_table"] += r["nmut"]
+        sw_tot["waiting_episodes"] += r["episodes"]
+        if tg[3][0] == "main" and r["nev"][0] < c_["line_events_of_builder"] // 2:
+            ck.notes.append("sweep %r: the late builder made only %d line events (alone: %d): it did not build" % (
+                tg, r["nev"][0], c_["line_events_of_builder"]))
+        if r["nfail"]:
+            # one report per late builder: its first failing lookup names the input, the others are listed with it
+            f = r["fails"][0]
+            ent = sw_fail.setdefault(json.dumps(s_["builder"]), [0, f, s_, []])
+            ent[0] += r["nfail"]
+            ent[3] += r["fails"][:max(0, 12 - len(ent[3]))]
+    cands = []
+    for n_, f, s_, others in sw_fail.values():
+        key = "race:%s:%s" % (json.dumps(s_["builder"]), json.dumps(f["call"]))
+        if fails.get(key):
+            continue      # the same pair of calls already fails in a segment schedule
+        at = f["at"]
+        pos = at[1] if len(at) > 1 else None
+        cl = []
+        if at[0] == "reader":
+            cl.append({"threads": [s_["builder"], s_["first"], f["call"]], "traced": [1, 0, 1],
+                       "segs": [[0, s_["head"]], [1, -1], [0, pos - s_["head"]], [2, at[2]], [0, 1], [2, -1], [0, -1]]})
+            cl.append(dict(s_, points=[pos], depths=[at[2]], readers=s_["readers"]))
+        cl.append(dict(s_, points=[p for p in s_["points"] if pos is None or p <= pos]))
+        cands.append((key, n_, f, s_, cl, others))
+    if cands:
+        flat = [c for _, _, _, _, cl, _ in cands for c in cl]
+        m3, r3 = run_jobs(flat, nproc=14)
+        j = 0
+        for key, n_, f, s_, cl, others in cands:
+            chosen = None
+            for c in cl:
+                r = r3[j]
+                j += 1
+                if chosen is None:
+                    if c.get("kind") == "sweep":
+                        if r["nfail"]:
+                            chosen = (c, r, r["fails"][0]["expected"])
+                    else:
+                        badt = [(cc, res) for cc, res in zip(c["threads"], r["results"]) if res != m3["seq_warm"][json.dumps(cc)]]
+                        if badt:
+                            chosen = (c, r, m3["seq_warm"][json.dumps(badt[0][0])])
+            note = ""
+            if chosen is None:
+                chosen, note = (s_, {"fails": [f]}, f["expected"]), " (seen once in the sweep, not reproduced by a second run)"
+            if f["at"][0] == "reader":
+                how = ("lookup %r begun when the builder had executed %d lines, parked after %d of its own line events at %r while the builder "
+                       "executed that one line, then resumed" % (f["call"], f["at"][1], f["at"][2], f["reader_parked_at"]))
+            else:
+                how = "complete lookup %r (%s)" % (f["call"], {"first": "first publisher, run while the builder was parked after %r lines" % f["at"][1:],
+                                                                "republish": "run because the builder's step had left the table empty, at %r" % f["at"][1:],
+                                                                "builder": "the late builder's own call",
+                                                                "afterwards": "after all threads had finished"}.get(f["at"][0], f["at"][0]))
+            what = ("%d lookups of the sweeps fail; first: late builder %r (parked %d lines in while %r publishes) about to execute %r; %s: "
+                    "returned %r, single-threaded result %r%s" % (n_, s_["builder"], s_["head"], s_["first"], f["builder_next_line"], how,
+                                                                  f["result"], f["expected"], note))
+            ck.fail(key, what, {"kind": "schedule", "schedule": chosen[0], "observed": chosen[1], "expected": chosen[2],
+                                "found_by_sweep": {k_: v for k_, v in s_.items() if k_ != "points"}, "first_failure_in_sweep": f,
+                                "failing_lookups_in_sweeps": others,
+                                "theorem": "DS.Props.C19.id_table_linearizable / hash_table_linearizable"})
+            fails[key] = [(-1, [])] if not fails.get(key) else fails[key]
+    ck.coverage["sweeps"] = dict(sw_tot, per_late_builder=list(sweep_cov.values()))
     # translator verdicts without a failing schedule
     for t in ("id", "hash"):
         if protos[t] != "publish" or rep[t]["reader_shape"] != "ensureFirst":
@@ -607,20 +927,39 @@ def run(ck):
         "forced schedules on the real functions: a traced thread (first-use GetSpaceGroup / FindSpaceGroup, i.e. the builder) is parked at "
         "every line event inside GetSpaceGroup/FindSpaceGroup/IsSpaceGroupIdentifier/_buildSGLookupTable/_getSGHashLookupTable; at each point an "
         "untraced reader performs a complete lookup, then the builder resumes (quick: every point of the identifier-table builder x its 2 readers and of "
-        "the fingerprint-table builder x its reader, every 17th point for readers of the other table, 60 two-switch builder/builder schedules). distinct_nontrivial = distinct (kind, calls, "
-        "observed table classes, source line of the pre-emption point)")
+        "the fingerprint-table builder x its reader, every 17th point for readers of the other table, 60 two-switch builder/builder schedules). "
+        "Sweeps (reader pre-empted in the middle of its own lookup while a LATE builder publishes; both tables): a traced builder that found the "
+        "table empty is parked `head` lines in, another thread completes a first-use lookup and publishes, then the late builder is advanced one "
+        "line at a time; at each covered position a batch of reader threads each begin a lookup (7 calls per table in rotation: every candidate "
+        "spelling, alias, integer, invalid input / same, reversed, shuffled, doubled operation lists) and are parked after d = %d..%d of their own "
+        "line events, the builder executes exactly one line, the readers are resumed deepest first and every result is compared with the "
+        "single-threaded reference (same setting, same exception kind); if the step left the table empty one more complete lookup republishes. "
+        "Positions covered: every position of the late builder from head = 8 (inside its build) to its last line event, plus the first 16 positions "
+        "after heads 1..4 (builder parked right after its emptiness test when the first publisher runs); thorough: depths 1..20, heads 1..6, two late "
+        "builders per table. "
+        "A failing lookup is re-run as a three-thread segment schedule [builder head lines | first publisher complete | builder to the position | "
+        "reader d lines | builder 1 line | reader to the end] and reported with that schedule. "
+        "evaluations = segment schedules + reader lookups of the sweeps (one per position x depth). distinct_nontrivial = distinct (kind, calls, "
+        "observed table classes, source line of the pre-emption point) + distinct (late builder, line at which a reader was parked)" % (depths[0], depths[-1]))
     ck.coverage["classes_observed"] = {t: sorted(v) for t, v in classes_seen.items()}
     ck.coverage["samples"] = [
         {"schedule": schedules[0], "results": runs[0]["results"], "obs": runs[0]["obs"][0]},
         {"schedule": schedules[len(schedules) // 2], "results": runs[len(schedules) // 2]["results"], "where": runs[len(schedules) // 2]["where"]},
         {"driver": lines[:2], "model": out[:2]},
-    ]
+    ] + [{"sweep": {k_: (v if k_ != "points" else [v[0], "...", v[-1], len(v)]) for k_, v in s_.items()},
+          "result": {k_: r[k_] for k_ in ("lookups", "parked", "nfail", "nmut", "republish", "episodes", "nev", "final")}}
+         for s_, tg, r in sweeps[:1]]
     ck.coverage["trusted_base"] += ["translate/protocol.py (ast classification of the build protocol and reader shape)",
                                     "translate/src_lookup.py (ordered statement events of the reader/builder functions; the classification itself is the Lean function DS.Props.SrcLookup.protocolOf / readerOf)",
                                     "CPython: one line event boundary = possible thread switch; GIL makes dict.update atomic"]
     ck.assumptions += ["pre-emption inside one bytecode / C call (dict.update, dict.__contains__) is not exercised: GIL atomicity assumed; not valid for free-threaded CPython",
                        "keys are abstract in the model (K arbitrary); GetSpaceGroup's three candidate spellings are the model's candidate list",
-                       "model/implementation tie compares outcome kinds from the abstraction (class of table, presence of the reader's key) of the observed state"]
+                       "model/implementation tie compares outcome kinds from the abstraction (class of table, presence of the reader's key) of the observed state",
+                       "three-party interleavings (late builder, first publisher, pre-empted reader) are explored with ONE pre-emption of the reader "
+                       "(after 1..14 of its line events; 1..20 thorough) and one line of the late builder in between; several readers parked at "
+                       "different depths share each builder step and are resumed deepest first; a reader pre-empted twice, or two late builders "
+                       "stepping alternately under one reader, are not enumerated (the Lean theorems cover them for the publish protocol only)",
+                       "sweeps: the reader call at (position p, depth d) is call (p + 3 d) mod 7 of the table's list, not all 7 at every pair"]
 
 
 def replay(path):
@@ -647,6 +986,15 @@ def replay(path):
         return 1 if bad else 0
     meta, runs = run_jobs([s], nproc=1)
     bad = 0
+    if s.get("kind") == "sweep":
+        r0 = runs[0]
+        print("sweep: late builder %r (parked after %d lines while %r publishes), table %s, %d positions x reader depths %r: %d lookups, "
+              "%d readers parked mid-lookup, %d wrong" % (s["builder"], s["head"], s.get("first"), s["table"], len(s["points"]), s["depths"],
+                                                          r0["lookups"], r0["parked"], r0["nfail"]))
+        for f in r0["fails"][:10]:
+            print("  %r at %r (builder about to execute %r, reader parked at %r) -> %r (single-threaded %r)" % (
+                f["call"], f["at"], f["builder_next_line"], f["reader_parked_at"], f["result"], f["expected"]))
+        return 1 if r0["nfail"] else 0
     for c, res in zip(s["threads"], runs[0]["results"]):
         seq = meta["seq_warm"][json.dumps(c)]
         print("call %r -> %r (single-threaded %r)" % (c, res, seq))
